@@ -132,7 +132,7 @@ def add_step(pp, subs, world, handles, recipe, act):
         raise env.InternalError(f"no recipe form for {op}")
 
 
-def bake(pp, vidx, program, layout=None, premature=False):
+def bake(pp, vidx, program, layout=None, premature=False, declare='one-by-one'):
     """Bake `program` in a fresh recipe that declares exactly the outside objects the program mentions.
     layout: list of (stage name, first step, one-past-last step or None = left open at bake).
     premature: bake() is also called after every step that leaves a declared object unused; that call must be refused
@@ -145,8 +145,22 @@ def bake(pp, vidx, program, layout=None, premature=False):
     out = {'ok': False, 'exc': None, 'results': None, 'recipe': recipe, 'handles': handles, 'world': world, 'subs': subs,
            'pre': None, 'phase': 'declare'}
     try:
-        for n in outside_mentioned(program):
-            recipe.uses(world[n])
+        names = outside_mentioned(program)
+        if declare == 'one-by-one' or len(names) < 2:
+            for n in names:
+                recipe.uses(world[n])
+        elif declare == 'list-then-args':          # one call: an iterable first, plain arguments after it
+            recipe.uses([world[names[0]]], *[world[n] for n in names[1:]])
+        elif declare == 'args-then-generator':     # one call: a plain argument, then a one-shot iterator with the rest
+            recipe.uses(world[names[0]], (world[n] for n in names[1:]))
+        elif declare == 'chained':                 # uses() returns the recipe
+            r2 = recipe
+            for n in names:
+                r2 = r2.uses((world[n],))
+                if r2 is not recipe:
+                    raise env.InternalError("uses() did not return the recipe")
+        else:
+            raise env.InternalError(declare)
         fp0 = e1.exact_world(world)
         starts = {s: n for n, s, e in (layout or [])}
         out['phase'] = 'add'
